@@ -350,6 +350,42 @@ Qed.
 
 Definition c15_nch (st : c15_client) : nat := length (p_chunks (cl_pool st)).
 
+Lemma c15_step_free_ok g sT aT st i : c15_geom_good sT aT g -> c15_pool_inv g st -> (i < length (cl_live st))%nat ->
+  exists b p', nth_error (cl_live st) i = Some b /\
+    c15_step_free g st i = (C15Client p' (c15_remove_nth i (cl_live st)), ObsFreed) /\
+    c15_pool_inv g (C15Client p' (c15_remove_nth i (cl_live st))) /\
+    length (p_chunks p') = c15_nch st /\
+    length (c15_remove_nth i (cl_live st)) = pred (length (cl_live st)).
+Proof.
+  intros GG Hinv Hi. unfold c15_step_free.
+  destruct (nth_error (cl_live st) i) as [b|] eqn:Enth; [|apply nth_error_None in Enth; lia].
+  destruct (c15_free_step g sT aT st i b GG Hinv Enth) as (p' & Ef & Hinv' & Hlen).
+  assert (Hl : length (c15_remove_nth i (cl_live st)) = pred (length (cl_live st))).
+  { destruct (c15_remove_nth_split _ _ _ Enth) as (l1 & l2 & E1 & E2 & _). rewrite E2, E1, !app_length. cbn. lia. }
+  exists b, p'. rewrite Ef. split; [reflexivity|]. split; [reflexivity|]. split; [exact Hinv'|]. split; [exact Hlen|exact Hl].
+Qed.
+
+Lemma c15_copy_first g sT aT : c15_geom_good sT aT g ->
+  exists p', c15_pool_allocate g (c15_pa_copy c15_pool_empty) = C15Ok ((0%nat, 0), p') /\
+             forall p, c15_pa_copy p = c15_pool_empty.
+Proof.
+  intros GG. destruct (c15_as_pos _ _ _ GG) as [Ha _]. pose proof (gg_el _ _ _ GG) as Hel.
+  unfold c15_pa_copy, c15_pool_allocate, c15_pool_empty. cbn [p_free].
+  rewrite (c15_grow_spec g (C15Pool [] []) Ha Hel). cbn [p_chunks length p_free]. unfold c15_chunk_slots.
+  destruct (N.to_nat (g_elements g)) as [|e] eqn:E; [lia|]. cbn [seq map N.of_nat N.mul].
+  eexists. split; reflexivity.
+Qed.
+
+Lemma c15_foreign_refused g st : c15_pool_inv g st ->
+  c15_pool_free g (cl_pool st) (S (length (p_chunks (cl_pool st))), 0) = C15BadAlloc.
+Proof.
+  intros (Hch & _). unfold c15_pool_free. cbn [fst snd].
+  assert (E : existsb (Nat.eqb (S (length (p_chunks (cl_pool st))))) (p_chunks (cl_pool st)) = false).
+  { destruct (existsb _ _) eqn:E; [|reflexivity]. apply existsb_exists in E. destruct E as (x & Hx & Hx2).
+    apply Nat.eqb_eq in Hx2. rewrite Hch in Hx. apply c15_rev_seq_in in Hx. lia. }
+  rewrite E. reflexivity.
+Qed.
+
 Lemma c15_run_ok g sT aT : c15_geom_good sT aT g -> forall ops st,
   c15_pool_inv g st -> c15_ops_ok (length (cl_live st)) ops = true ->
   c15_spec_trace sT aT (g_chunkSize g) (c15_nch st) (cl_live st) ops (fst (c15_run g st ops)) = true /\
@@ -358,7 +394,36 @@ Lemma c15_run_ok g sT aT : c15_geom_good sT aT g -> forall ops st,
 Proof.
   intros GG. induction ops as [|op ops IH]; intros st Hinv Hok.
   - cbn [c15_run fst snd c15_spec_trace c15_spec_nchunks]. rewrite Nat.max_0_r. split; [reflexivity|split; [assumption|reflexivity]].
-  - destruct op as [n|i]; cbn [c15_ops_ok] in Hok.
+  - assert (Hsame : forall o, c15_ops_ok (length (cl_live st)) ops = true ->
+              c15_step g st op = (st, o) ->
+              (forall os, c15_spec_trace sT aT (g_chunkSize g) (c15_nch st) (cl_live st) (op :: ops) (o :: os) =
+                          c15_spec_trace sT aT (g_chunkSize g) (c15_nch st) (cl_live st) ops os) ->
+              c15_spec_nchunks [o] = 0%nat ->
+              c15_spec_trace sT aT (g_chunkSize g) (c15_nch st) (cl_live st) (op :: ops) (fst (c15_run g st (op :: ops))) = true /\
+              c15_pool_inv g (snd (c15_run g st (op :: ops))) /\
+              c15_nch (snd (c15_run g st (op :: ops))) = Nat.max (c15_nch st) (c15_spec_nchunks (fst (c15_run g st (op :: ops))))).
+    { intros o Hok' Estep Hspec Hn. cbn [c15_run]. rewrite Estep.
+      specialize (IH st Hinv Hok'). destruct IH as (IH1 & IH2 & IH3).
+      destruct (c15_run g st ops) as [os st2] eqn:Er. cbn [fst snd] in *.
+      rewrite Hspec. split; [exact IH1|split; [exact IH2|]].
+      rewrite IH3. destruct o; cbn in Hn; try discriminate; cbn [c15_spec_nchunks]; try reflexivity. }
+    assert (Hfree : forall i, (i < length (cl_live st))%nat -> c15_ops_ok (pred (length (cl_live st))) ops = true ->
+              c15_step g st op = c15_step_free g st i ->
+              (forall b os, nth_error (cl_live st) i = Some b ->
+                          c15_spec_trace sT aT (g_chunkSize g) (c15_nch st) (cl_live st) (op :: ops) (ObsFreed :: os) =
+                          c15_spec_trace sT aT (g_chunkSize g) (c15_nch st) (c15_remove_nth i (cl_live st)) ops os) ->
+              c15_spec_trace sT aT (g_chunkSize g) (c15_nch st) (cl_live st) (op :: ops) (fst (c15_run g st (op :: ops))) = true /\
+              c15_pool_inv g (snd (c15_run g st (op :: ops))) /\
+              c15_nch (snd (c15_run g st (op :: ops))) = Nat.max (c15_nch st) (c15_spec_nchunks (fst (c15_run g st (op :: ops))))).
+    { intros i Hi Hok' Estep Hspec.
+      destruct (c15_step_free_ok g sT aT st i GG Hinv Hi) as (b & p' & Enth & Ef & Hinv' & Hlen & Hl).
+      cbn [c15_run]. rewrite Estep, Ef.
+      specialize (IH (C15Client p' (c15_remove_nth i (cl_live st))) Hinv'). cbn [cl_live] in IH. rewrite Hl in IH.
+      specialize (IH Hok'). destruct IH as (IH1 & IH2 & IH3).
+      destruct (c15_run g (C15Client p' (c15_remove_nth i (cl_live st))) ops) as [os st2] eqn:Er. cbn [fst snd] in *.
+      rewrite (Hspec b os Enth). unfold c15_nch in *. cbn [cl_pool] in *. rewrite Hlen in *.
+      split; [exact IH1|split; [exact IH2|exact IH3]]. }
+    destruct op as [n|i|i n|nl|k|i k]; cbn [c15_ops_ok] in Hok.
     + (* allocate(n) *)
       cbn [c15_run c15_step]. unfold c15_pa_allocate.
       destruct (n =? 1) eqn:En.
@@ -383,18 +448,31 @@ Proof.
         cbn [fst snd] in *. cbn [c15_spec_trace c15_spec_nchunks]. rewrite En. split; [exact IH1|split; [exact IH2|exact IH3]].
     + (* free i *)
       apply andb_true_iff in Hok. destruct Hok as [Hi Hok]. apply Nat.ltb_lt in Hi.
-      cbn [c15_run c15_step].
+      apply (Hfree i Hi Hok); [reflexivity|].
+      intros b os Enth. cbn [c15_spec_trace]. rewrite Enth. reflexivity.
+    + (* deallocate(p_i, n), n <= 1 *)
+      apply andb_true_iff in Hok. destruct Hok as [Hok Hok2]. apply andb_true_iff in Hok. destruct Hok as [Hi Hn].
+      apply Nat.ltb_lt in Hi. apply N.leb_le in Hn.
       destruct (nth_error (cl_live st) i) as [b|] eqn:Enth; [|apply nth_error_None in Enth; lia].
-      destruct (c15_free_step g sT aT st i b GG Hinv Enth) as (p' & Ef & Hinv' & Hlen).
-      rewrite Ef.
-      specialize (IH (C15Client p' (c15_remove_nth i (cl_live st))) Hinv').
-      cbn [cl_live] in IH.
-      assert (Hl : length (c15_remove_nth i (cl_live st)) = pred (length (cl_live st))).
-      { destruct (c15_remove_nth_split _ _ _ Enth) as (l1 & l2 & E1 & E2 & _). rewrite E2, E1, !app_length. cbn. lia. }
-      rewrite Hl in IH. specialize (IH Hok). destruct IH as (IH1 & IH2 & IH3).
-      destruct (c15_run g (C15Client p' (c15_remove_nth i (cl_live st))) ops) as [os st2] eqn:Er.
-      cbn [fst snd] in *. cbn [c15_spec_trace c15_spec_nchunks]. rewrite Enth.
-      unfold c15_nch in *. cbn [cl_pool] in *. rewrite Hlen in *. split; [exact IH1|split; [exact IH2|exact IH3]].
+      destruct (N.eq_dec n 0) as [E0|E0].
+      * subst n. cbn in Hok2. apply (Hsame ObsNoop Hok2).
+        -- cbn [c15_step]. cbn. rewrite Enth. reflexivity.
+        -- intros os. cbn [c15_spec_trace]. rewrite Enth. reflexivity.
+        -- reflexivity.
+      * assert (n = 1) by lia. subst n. cbn in Hok2. apply (Hfree i Hi Hok2); [reflexivity|].
+        intros b' os Enth'. cbn [c15_spec_trace]. rewrite Enth'. reflexivity.
+    + (* free(null) / free(foreign) *)
+      apply (Hsame ObsBadAlloc Hok).
+      * cbn [c15_step]. destruct nl; [reflexivity|]. rewrite (c15_foreign_refused g st Hinv). reflexivity.
+      * intros os. reflexivity.
+      * reflexivity.
+    + (* copy / convert / rebind *)
+      apply (Hsame ObsCopyOk Hok).
+      * cbn [c15_step]. destruct (c15_copy_first g sT aT GG) as (p' & E & Hc). rewrite (Hc (cl_pool st)).
+        rewrite (Hc c15_pool_empty) in E. rewrite E. reflexivity.
+      * intros os. reflexivity.
+      * reflexivity.
+    + discriminate.
 Qed.
 
 (* destroy releases each chunk obtained exactly once *)
